@@ -82,4 +82,47 @@ func (ns *Namespace) GetHandler(name string) (h context.Handler, ok bool)
   requires published-pipelines-are-pipelines: forall n string :: pl(ns, n) ==> typeIs(ptr(plVal(ns, n), "*supervisor.ObjectEntity").instance, "*pipeline.Pipeline")
   ensures ok == pl(ns, name)
   ensures ok ==> h == ptr(plVal(ns, name), "*supervisor.ObjectEntity").instance
+
+// ---- C20: the create path the raw-config traffic controller drives (name appeared in the snapshot) ----
+// The object is initialised once and is live under its name afterwards, whether or not its Init panicked
+// (InitWithRecovery recovers): a later spec change finds it (inherit), a later disappearance finds it (close).
+pred tg(sp *Namespace, n string) := smHas[addr(sp.trafficGates)][typeTag("string")][boxed("string", n)]
+pred tgVal(sp *Namespace, n string) := smVal[addr(sp.trafficGates)][typeTag("string")][boxed("string", n)]
+axiom the-two-maps-of-a-namespace-are-distinct-and-not-shared: forall a, b *Namespace :: addr(a.trafficGates) != addr(b.pipelines) && (addr(a.trafficGates) == addr(b.trafficGates) ==> a == b)
+
+func (tc *TrafficController) CreatePipeline(namespace string, entity *supervisor.ObjectEntity) (res *supervisor.ObjectEntity, err error)
+  flag allocates
+  flag frame=unchecked
+  requires tc != nil && tc.namespaces != nil && (forall ns string :: (ns in tc.namespaces) ==> tc.namespaces[ns] != nil) && entity != nil && entity.spec != nil && entity.spec.meta != nil
+  ensures empty-namespace-is-refused-and-changes-nothing: namespace == "" ==> err != nil && smHas == old(smHas) && smVal == old(smVal) && inits == old(inits)
+  ensures a-named-namespace-never-refuses: namespace != "" ==> err == nil && res == entity
+  ensures initialised-exactly-once: namespace != "" ==> inits == old(store(inits, ref(entity), inits[ref(entity)] + 1)) && inherits == old(inherits) && closes == old(closes)
+  ensures live-under-its-name-whether-or-not-init-panicked: namespace != "" ==> gName == entity.spec.meta.Name && (namespace in tc.namespaces) && gSpace == ref(tc.namespaces[namespace]) && pl(ptr(gSpace, "*Namespace"), gName) && plVal(ptr(gSpace, "*Namespace"), gName) == ref(entity)
+  ensures no-other-pipeline-is-touched: forall sp *Namespace; n string :: allocated(sp) && !(ref(sp) == gSpace && n == gName) ==> (pl(sp, n) <==> old(pl(sp, n))) && plVal(sp, n) == old(plVal(sp, n))
+  ensures no-traffic-gate-is-touched: forall sp *Namespace; n string :: allocated(sp) ==> (tg(sp, n) <==> old(tg(sp, n))) && tgVal(sp, n) == old(tgVal(sp, n))
+  ensures published-only-after-its-init-ran: gPublished ==> gPublishedBuilt
+  ghost at entry: gPublished := false
+  ghost at entry: gBase := inits[ref(entity)]
+  ghost at call Store: gPublished := true
+  ghost at call Store: gPublishedBuilt := (inits[ifaceVal(value)] == gBase + 1) && ifaceVal(value) == ref(entity)
+  ghost at call[1] Name: gName := n
+  ghost at call[1] InitWithRecovery: gSpace := ref(space)
+
+func (tc *TrafficController) CreateTrafficGate(namespace string, entity *supervisor.ObjectEntity) (res *supervisor.ObjectEntity, err error)
+  flag allocates
+  flag frame=unchecked
+  requires tc != nil && tc.namespaces != nil && (forall ns string :: (ns in tc.namespaces) ==> tc.namespaces[ns] != nil) && entity != nil && entity.spec != nil && entity.spec.meta != nil
+  ensures empty-namespace-is-refused-and-changes-nothing: namespace == "" ==> err != nil && smHas == old(smHas) && smVal == old(smVal) && inits == old(inits)
+  ensures a-named-namespace-never-refuses: namespace != "" ==> err == nil && res == entity
+  ensures initialised-exactly-once: namespace != "" ==> inits == old(store(inits, ref(entity), inits[ref(entity)] + 1)) && inherits == old(inherits) && closes == old(closes)
+  ensures live-under-its-name-whether-or-not-init-panicked: namespace != "" ==> gName == entity.spec.meta.Name && (namespace in tc.namespaces) && gSpace == ref(tc.namespaces[namespace]) && tg(ptr(gSpace, "*Namespace"), gName) && tgVal(ptr(gSpace, "*Namespace"), gName) == ref(entity)
+  ensures no-other-traffic-gate-is-touched: forall sp *Namespace; n string :: allocated(sp) && !(ref(sp) == gSpace && n == gName) ==> (tg(sp, n) <==> old(tg(sp, n))) && tgVal(sp, n) == old(tgVal(sp, n))
+  ensures no-pipeline-is-touched: forall sp *Namespace; n string :: allocated(sp) ==> (pl(sp, n) <==> old(pl(sp, n))) && plVal(sp, n) == old(plVal(sp, n))
+  ensures published-only-after-its-init-ran: gPublished ==> gPublishedBuilt
+  ghost at entry: gPublished := false
+  ghost at entry: gBase := inits[ref(entity)]
+  ghost at call Store: gPublished := true
+  ghost at call Store: gPublishedBuilt := (inits[ifaceVal(value)] == gBase + 1) && ifaceVal(value) == ref(entity)
+  ghost at call[1] Name: gName := n
+  ghost at call[1] InitWithRecovery: gSpace := ref(space)
 @*/
